@@ -390,6 +390,18 @@ class SymCtx:
                 out[n] = (False if kind == "bool" else 0) if v is None else v
         return out
 
+    def make_dyadic(self):
+        """Move self.model to a model of the path condition whose real inputs are multiples of 2^-k. False if none found."""
+        reals = [var for (kind, var) in self.inputs.values() if kind == "real"]
+        if not reals:
+            return True
+        for den in (8, 256, 65536):
+            r, m = self.solve(*[z3.IsInt(v * den) for v in reals], timeout_ms=10000)
+            if r == "sat":
+                self._update_model(m)
+                return True
+        return False
+
     def _nice_model(self, neg):
         """Model of pc ∧ neg, preferring dyadic reals (exact as floats on the stock loop)."""
         reals = [var for (kind, var) in self.inputs.values() if kind == "real"]
@@ -647,8 +659,17 @@ def run_path(fn, params, prefix, model, stats, known_open=(), keep_obs=False, se
     res.decisions = len(ctx.decisions)
     res.notes = ctx.notes
     if keep_obs and res.status == "ok":
-        res.assignment = ctx.assignment()
-        res.observations = concretise_obs(ctx, ctx.observations)
+        # sampled path for trace validation: prefer a model whose real-valued inputs are dyadic rationals, so that the
+        # stock loop's float clock reproduces every instant exactly (otherwise float rounding can flip a comparison)
+        core.CUR = ctx
+        try:
+            if ctx.make_dyadic():
+                res.assignment = ctx.assignment()
+                res.observations = concretise_obs(ctx, ctx.observations)
+        except (EngineSignal, Exception):
+            pass
+        finally:
+            core.CUR = None
     return res, ctx.pending
 
 
